@@ -180,6 +180,26 @@ fn extract(e: &Envelope, ty: &str) -> String {
 }
 
 
+/// the typed lookups (`extract_object_for_predicate::<T>` and its optional / bulk / default forms); kind 0 = single, 1 = optional,
+/// 2 = bulk, 3 = with default
+fn typed_lookup(e: &Envelope, p: &Envelope, ty: &str, kind: u8) -> String {
+    fn go<T: TryFrom<CBOR, Error = anyhow::Error> + 'static + Clone>(e: &Envelope, p: &Envelope, kind: u8, default: T, show: &dyn Fn(&T) -> String) -> String {
+        match kind {
+            0 => match e.extract_object_for_predicate::<T>(p.clone()) { Ok(v) => format!("ok {}", show(&v)), Err(_) => "err".into() },
+            1 => match e.extract_optional_object_for_predicate::<T>(p.clone()) { Ok(Some(v)) => format!("ok {}", show(&v)), Ok(None) => "none".into(), Err(_) => "err".into() },
+            2 => match e.extract_objects_for_predicate::<T>(p.clone()) { Ok(vs) => format!("[{}]", vs.iter().map(|v| format!("ok {}", show(v))).collect::<Vec<_>>().join(" ")), Err(_) => "err".into() },
+            _ => match e.extract_object_for_predicate_with_default::<T>(p.clone(), default) { Ok(v) => format!("ok {}", show(&v)), Err(_) => "err".into() },
+        }
+    }
+    match ty {
+        "i64" => go::<i64>(e, p, kind, i64::MIN + 7, &|v| if *v == i64::MIN + 7 { "default".into() } else { v.to_string() }),
+        "bool" => go::<bool>(e, p, kind, false, &|v| v.to_string()),
+        "text" => go::<String>(e, p, kind, "\u{1}default".to_string(), &|v| if v == "\u{1}default" { "default".into() } else { hex::encode(v.as_bytes()) }),
+        "bytes" => go::<ByteString>(e, p, kind, ByteString::from(vec![0xde, 0xfa, 0x01]), &|v| if v.data() == [0xde, 0xfa, 0x01] { "default".into() } else { hex::encode(v.data()) }),
+        _ => "bad-op".into(),
+    }
+}
+
 fn opt_hex(s: &str) -> Option<Option<Vec<u8>>> { if s == "-" { Some(None) } else { hex::decode(s).ok().map(Some) } }
 fn opt_str(s: &str) -> Option<Option<String>> { match opt_hex(s)? { None => Some(None), Some(b) => String::from_utf8(b).ok().map(Some) } }
 
@@ -234,6 +254,28 @@ impl Machine {
 
     fn eval_assign(&self, a: &[&str]) -> Option<Val> {
         Some(match a {
+            ["set_leaf", items] => {
+                // a HashSet of CBOR values (iteration order is the hasher's) as envelope content
+                let mut hs: std::collections::HashSet<CBOR> = std::collections::HashSet::new();
+                for it in items.split(',') { if it.is_empty() { continue; } hs.insert(CBOR::try_from_data(hex::decode(it).ok()?).ok()?); }
+                Val::Env(Envelope::new(hs))
+            }
+            ["dset_leaf", items] => {
+                // the same through dcbor's own Set, filled in the order given
+                let mut ds = dcbor::Set::new();
+                for it in items.split(',') { if it.is_empty() { continue; } ds.insert(CBOR::try_from_data(hex::decode(it).ok()?).ok()?); }
+                Val::Env(Envelope::new(ds))
+            }
+            ["map_leaf", items] => {
+                let mut hm: std::collections::HashMap<CBOR, CBOR> = std::collections::HashMap::new();
+                for it in items.split(',') { if it.is_empty() { continue; } let (k, v) = it.split_once('=')?; hm.insert(CBOR::try_from_data(hex::decode(k).ok()?).ok()?, CBOR::try_from_data(hex::decode(v).ok()?).ok()?); }
+                Val::Env(Envelope::new(hm))
+            }
+            ["dmap_leaf", items] => {
+                let mut dm = dcbor::Map::new();
+                for it in items.split(',') { if it.is_empty() { continue; } let (k, v) = it.split_once('=')?; dm.insert(CBOR::try_from_data(hex::decode(k).ok()?).ok()?, CBOR::try_from_data(hex::decode(v).ok()?).ok()?); }
+                Val::Env(Envelope::new(dm))
+            }
             ["leaf", hx] => {
                 let b = hex::decode(hx).ok()?;
                 match CBOR::try_from_data(&b) {
@@ -263,6 +305,24 @@ impl Machine {
                     } else { return None };
                 let t = self.digest_set(ts)?;
                 Val::Env(e.elide_set_with_action(&t, rev, &action))
+            }
+            ["elide_array", e, mode, act, ts] | ["elide_target", e, mode, act, ts] => {
+                // the array and single-target doors of elision, each through its most specific public function
+                let e = self.env(e)?;
+                let rev = match *mode { "rev" => true, "rem" => false, _ => return None };
+                let plain = *act == "elide";
+                let action = if plain { ObscureAction::Elide } else if *act == "compress" { ObscureAction::Compress }
+                    else if let Some(k) = act.strip_prefix("encrypt:") { ObscureAction::Encrypt(SymmetricKey::from_data_ref(hex::decode(k).ok()?).ok()?) } else { return None };
+                let ts = self.envs(ts)?;
+                if a[0] == "elide_target" {
+                    let t = ts.first()?;
+                    Val::Env(match (rev, plain) { (false, true) => e.elide_removing_target(t), (true, true) => e.elide_revealing_target(t),
+                        (false, false) => e.elide_removing_target_with_action(t, &action), (true, false) => e.elide_revealing_target_with_action(t, &action) })
+                } else {
+                    let arr: Vec<&dyn DigestProvider> = ts.iter().map(|t| t as &dyn DigestProvider).collect();
+                    Val::Env(match (rev, plain) { (false, true) => e.elide_removing_array(&arr), (true, true) => e.elide_revealing_array(&arr),
+                        (false, false) => e.elide_removing_array_with_action(&arr, &action), (true, false) => e.elide_revealing_array_with_action(&arr, &action) })
+                }
             }
             ["unelide", ph, e] => res(self.env(ph)?.unelide(self.env(e)?)),
             ["compress", e] => res(self.env(e)?.compress()),
@@ -473,6 +533,10 @@ impl Machine {
                 Err(x) => format!("err {}", err_kind(&x)),
             },
             ["extract", e, ty] => extract(&self.env(e)?, ty),
+            ["eofp", e, p, ty] => typed_lookup(&self.env(e)?, &self.env(p)?, ty, 0),
+            ["eoofp", e, p, ty] => typed_lookup(&self.env(e)?, &self.env(p)?, ty, 1),
+            ["eosfp", e, p, ty] => typed_lookup(&self.env(e)?, &self.env(p)?, ty, 2),
+            ["eofpd", e, p, ty] => typed_lookup(&self.env(e)?, &self.env(p)?, ty, 3),
             ["confirm", e, ts, p] => {
                 let t = self.digest_set(ts)?;
                 self.env(e)?.confirm_contains_set(&t, &self.env(p)?).to_string()
